@@ -38,7 +38,26 @@ def _whash(ws):
     return h.hexdigest()
 
 
-def selection_ok(m):
+def inert_ok(m, X, rnd_seed=0):
+    """Changing the value of any unselected feature never changes predict_proba (bit-identical)."""
+    sel = set(int(v) for v in m.get_selection())
+    X = np.asarray(X, dtype=np.float64)
+    uns = [j for j in range(X.shape[1]) if j not in sel]
+    if not uns:
+        return True
+    base = m.predict_proba(X)
+    rs = np.random.RandomState(rnd_seed)
+    for j in uns + [uns]:
+        X2 = X.copy()
+        X2[:, j] = rs.uniform(-50, 50, size=X2[:, j].shape)
+        if not np.array_equal(m.predict_proba(X2), base):
+            return False
+    return True
+
+
+def selection_ok(m, X=None):
+    if X is not None and not inert_ok(m, X):
+        return False
     is_mlp = hasattr(m, "W_skip_")
     skip = m.W_skip_ if is_mlp else m.W_
     rows = np.any(skip != 0, axis=1)
@@ -112,7 +131,7 @@ def record_path(model, X, y=None, script=None, frac=None, max_calls=4000, **parg
         nsel = int(clf._n_selected_features())
         e = dict(e="val", pre=min(st["epochs"], 1), s=0, isnan=bool(math.isnan(s)), improves=False, gebest=False, gekeep=False,
                  l1imp=False, nsel=nsel, w=widof(ws), sid=sid(s), pid=pid(float(clf._group_lasso_penalty())), step=st["step"],
-                 alphaok=True, selok=selection_ok(clf), finite=bool(all(np.all(np.isfinite(w)) for w in ws)))
+                 alphaok=True, selok=selection_ok(clf, Xa), finite=bool(all(np.all(np.isfinite(w)) for w in ws)))
         if exact:
             e["s"] = -1 if math.isnan(s) else int(s)
         if st["phase"] == "init":
@@ -152,7 +171,7 @@ def record_path(model, X, y=None, script=None, frac=None, max_calls=4000, **parg
         hasaff = train.full_affinity_of(model, X, y) is not None
     except Exception:
         full, hasaff = None, False
-    tr = train.Recorder(model, n, "path", False, None, hasaff, full)
+    tr = train.Recorder(model, n, "path", False, None, hasaff, full, d=d)
     res, err = None, None
     with warnings.catch_warnings(record=True) as wlist:
         warnings.simplefilter("always")
@@ -194,6 +213,6 @@ def record_path(model, X, y=None, script=None, frac=None, max_calls=4000, **parg
                            gem=[sid(float(v)) for v in geminis], pen=[pid(float(v)) for v in pens], alphasok=bool(aok),
                            bestw=wid.get(bw, -5), finalw=wid.get(_whash(model._get_weights()), -6),
                            nanwarned=any("converged to nan" in m for m in msgs),
-                           selok=selection_ok(model), nfeat_types=all(isinstance(v, (int, np.integer)) for v in nfeat)))
+                           selok=selection_ok(model, X), nfeat_types=all(isinstance(v, (int, np.integer)) for v in nfeat)))
         tr.finish(X, y)
     return dict(path=events, train=tr.events, err=err, result=res, warnings=msgs, alpha_after=getattr(model, "alpha", None), alpha0=alpha0)
